@@ -648,8 +648,10 @@ def _fit_windows(
     windows['range', 0] = center - width / 2
     windows['range', 1] = np.nextafter(center.values + width.value / 2, np.inf)
 
-    windows = _clip_to_data_range(data, windows)
     _separate_from_neighbors_in_place(center, windows, fit_parameters)
+    # Clip last: clipping is monotonic, so windows stay ordered and inside the data
+    # range also for estimates outside of it.
+    windows = _clip_to_data_range(data, windows)
 
     return windows
 
